@@ -80,6 +80,10 @@ def make_inputs(chk, n, seed):
     paths = {}
     paths["A"] = os.path.join(d, "plt00010")
     gamma.write_plotfile(paths["A"], lat.ap("A", ["u", "v", "w"], files_of=own), cfg_, values=lattice.Fields(lat, seed).values)
+    # the same data with every box in a binary file of its own: n + 1 per-file tasks (more tasks than four per worker when the
+    # code is told it has one processor, so that map() sends several of them in one chunk)
+    paths["A5"] = os.path.join(d, "plt00015")
+    gamma.write_plotfile(paths["A5"], lat.ap("A", ["u", "v", "w"], files_of=lambda lv, b: b), cfg_, values=lattice.Fields(lat, seed).values)
     paths["B"] = os.path.join(d, "plt00020")
     gamma.write_plotfile(paths["B"], lat.ap("B", ["p", "q"], files_of=own), cfg_, values=lattice.Fields(lat, seed + 1).values)
     paths["B2"] = os.path.join(d, "plt00030")      # same mesh, other file assignment: combine goes box by box
@@ -188,6 +192,12 @@ def drivers():
     def _(p, out, serial):
         from amr_kitchen.colander import Colander
         Colander(plotfile=p["A"], output=out, variables=["w", "u"]).strain()
+
+    @reg("colander.tail")
+    def _(p, out, serial):
+        # kept fields that do NOT include the first field of the input, one task per box
+        from amr_kitchen.colander import Colander
+        Colander(plotfile=p["A5"], output=out, variables=["w", "v"]).strain()
 
     @reg("combine.byfile")
     def _(p, out, serial):
